@@ -183,6 +183,8 @@ def make_problem(spec):
             x0[0] = 0.25 if box != "log" else 1.25
         if cname == "lattice":
             x0 = np.asarray([0.5] * D)
+    if spec.get("x0_int") and x0 is not None:     # an integer-TYPED start (np.array([1, -2])): what callers write for round numbers
+        x0 = np.round(x0).astype(np.int64)
     options = dict(display="off", random_seed=spec.get("seed", 0))
     if noise == "declared":
         options["uncertainty_handling"] = True
